@@ -1,6 +1,7 @@
 //! Model-checking harness for chia_rs: engines, reference models, evidence.
 pub mod bfs;
 pub mod cli;
+pub mod corpus;
 pub mod drive;
 pub mod engine;
 pub mod genr;
